@@ -150,6 +150,7 @@ static int bn_param_eq(EVP_PKEY *a, EVP_PKEY *b, const char *param)
 
 #define MISMATCH(name) do { if (nmis < 16) mis[nmis++] = (name); } while (0)
 
+static unsigned long n_okp_lz;
 int main(int argc, char **argv)
 {
 	vh_args_t a;
@@ -170,6 +171,18 @@ int main(int argc, char **argv)
 		spec = specs[(size_t)idx / (size_t)a.nshards % nspec];
 		if (!strcmp(spec, "oct")) { snprintf(specbuf, sizeof(specbuf), "oct:%d", 1 + (int)vh_below(&rng, 512)); spec = specbuf; }
 		if (vh_key_gen(&k, spec, &rng)) vh_harness_fail("keygen %s", spec);
+		if (k.kind == VH_K_OKP && (idx & 1)) {
+			/* every second OKP key: one whose raw private or public octet string starts with 0x00 (octet strings, not integers) */
+			for (int tries = 0; tries < 5000; tries++) {
+				unsigned char raw[64]; size_t rl = sizeof(raw);
+				int z = EVP_PKEY_get_raw_private_key(k.pkey, raw, &rl) == 1 && rl && raw[0] == 0;
+				rl = sizeof(raw);
+				z |= EVP_PKEY_get_raw_public_key(k.pkey, raw, &rl) == 1 && rl && raw[0] == 0;
+				if (z) { n_okp_lz++; break; }
+				vh_key_free(&k);
+				if (vh_key_gen(&k, spec, &rng)) vh_harness_fail("keygen %s", spec);
+			}
+		}
 		/* several JWK variants per generated key (RSA keygen is the expensive part) */
 		keyreuse = k.kind == VH_K_RSA ? 12 : 4;
 		for (int var = 0; var < keyreuse; var++) {
@@ -260,5 +273,6 @@ int main(int argc, char **argv)
 		vh_key_free(&k);
 	}
 	printf("[\"STATS\",%lu]\n", nchecked);
+	printf("[\"OKPLZ\",%lu]\n", n_okp_lz);
 	return 0;
 }
